@@ -784,7 +784,7 @@ package hashgraph
 //@   modifies nothing
 //@   ensures[nil]  e.Body.BlockSignatures == nil ==> ret0 == nil
 //@   ensures[copy] e.Body.BlockSignatures != nil ==> ret0 != nil && len(ret0) == len(e.Body.BlockSignatures) && (forall k int :: 0 <= k && k < len(ret0) ==> ret0[k].Index == e.Body.BlockSignatures[k].Index && ret0[k].Signature == e.Body.BlockSignatures[k].Signature)
-//@   loop 1 invariant[part] len(wireSignatures) == len(e.Body.BlockSignatures) && !(wireSignatures == nil) && (forall j int :: 0 <= j && j < i ==> wireSignatures[j].Index == e.Body.BlockSignatures[j].Index && wireSignatures[j].Signature == e.Body.BlockSignatures[j].Signature)
+//@   loop 1 invariant[part] len(wireSignatures) == len(e.Body.BlockSignatures) && !(wireSignatures == nil) && (forall j int :: 0 <= j && j < __idx() ==> wireSignatures[j].Index == e.Body.BlockSignatures[j].Index && wireSignatures[j].Signature == e.Body.BlockSignatures[j].Signature)
 
 //@ func (e *Event) ToWire() WireEvent
 //@   safety on
